@@ -50,6 +50,9 @@ EDGE_DOCS = [
     "edge_bom",
     "edge_utf8_3",
     "edge_formfeed",
+    "edge_seps_tail",
+    "edge_u2028",
+    "edge_fs_gs_rs",
     "pr_only",
     "pr_bad",
     "pr_good",
